@@ -185,8 +185,12 @@ def entry_points():
 
 def _jsonable(res):
     import pyspike
-    if isinstance(res, (pyspike.PieceWiseConstFunc, pyspike.PieceWiseLinFunc,
-                        pyspike.DiscreteFunc)):
+    if isinstance(res, pyspike.DiscreteFunc):
+        # the values of the two framing entries "never count": compare times, and
+        # values / multiplicities of the events only
+        a = M.profile_arrays(res)
+        return dict(x=a["x"], y=a["y"][1:-1], mp=a["mp"][1:-1])
+    if isinstance(res, (pyspike.PieceWiseConstFunc, pyspike.PieceWiseLinFunc)):
         return M.profile_arrays(res)
     if isinstance(res, pyspike.SpikeTrain):
         return dict(spikes=[float(v) for v in res.spikes], e=[res.t_start, res.t_end])
